@@ -10,7 +10,7 @@
    generated table Gen/C13Tables.v is Session.PAIRING_METHODS as read from bumble/smp.py by this
    run. *)
 From Coq Require Import ZArith List Bool.
-From BV Require Import Gen.C13Tables Model.Pairing Proofs.Pairing.
+From BV Require Import Gen.C13Tables Gen.C13Skeleton Model.Pairing Model.PairingMsg Model.PairingSkel Proofs.Pairing Proofs.PairingMsg Proofs.PairingSkel.
 Import ListNotations.
 Open Scope Z_scope.
 
@@ -67,7 +67,7 @@ Print Assumptions C13_roles_complementary.
 Theorem C13_negotiation_agrees : forall ci cr ans sr si,
   responder_session false cr ans (request_of ci) = Some sr ->
   initiator_session false ci (response_of cr sr) = NegOk si ->
-  negotiated_ok ci cr ans si sr.
+  negotiated_ok false ci cr ans si sr.
 Proof. exact negotiation. Qed.
 Print Assumptions C13_negotiation_agrees.
 
@@ -80,7 +80,7 @@ Print Assumptions C13_expectations_match.
 (* hence the key distribution phase completes on both sides: nobody waits for a key that is not
    sent, nobody receives a key it does not expect *)
 Theorem C13_key_distribution_completes : forall ci cr ans si sr,
-  negotiated_ok ci cr ans si sr -> phase3 false si sr = (Completed, Completed).
+  negotiated_ok false ci cr ans si sr -> phase3 false si sr = (Completed, Completed).
 Proof. exact phase3_completes. Qed.
 Print Assumptions C13_key_distribution_completes.
 
@@ -113,6 +113,21 @@ Theorem C13_link_key_shared : forall T, toolbox_ok T -> forall e ci cr i r si sr
   e_bad_confirm_i e = false -> e_bad_confirm_r e = false -> a = b.
 Proof. exact tb_link_key_shared. Qed.
 Print Assumptions C13_link_key_shared.
+
+(* The property end to end (modelled flows): both completed, with one shared link key, keys stored
+   on both sides, and on a later connection in either role order the peripheral's store yields the
+   key the central's store yields - or both report the same failure and neither stored anything. *)
+Theorem C13_pairing_end_to_end : forall T, toolbox_ok T -> forall e ci cr i r si sr link,
+  pair_with T e ci cr = Res i r si sr link ->
+  (r_outcome i = Completed /\ r_outcome r = Completed /\
+   exists ki kr, r_store i = Some ki /\ r_store r = Some kr /\
+     (forall k, central_request _ ki = Some k -> peripheral_reply _ kr = Some k) /\
+     (forall k, central_request _ kr = Some k -> peripheral_reply _ ki = Some k) /\
+     (e_bad_confirm_i e = false -> e_bad_confirm_r e = false ->
+      forall a b, link = Some (a, b) -> a = b))
+  \/ (exists reason, nothing_stored_tb i r reason).
+Proof. exact pairing_end_to_end. Qed.
+Print Assumptions C13_pairing_end_to_end.
 
 (* ---------------------------------------------------------------- a failed check stores nothing *)
 Theorem C13_wrong_passkey_stores_nothing : forall T, toolbox_ok T ->
@@ -206,6 +221,108 @@ Theorem C13_reconnect_available : forall T e ci cr i r s_i s_r link ki kr,
 Proof. exact tb_reconnect_available. Qed.
 Print Assumptions C13_reconnect_available.
 
+(* both sides store a BR/EDR link key only after secure connections, and then the same one
+   (fixes/D13d.patch) *)
+Theorem C13_link_key_store_shared : forall T, toolbox_ok T ->
+  forall e ci cr i r s_i s_r link ki kr,
+  pair_with T e ci cr = Res i r (Some s_i) (Some s_r) link ->
+  r_store i = Some ki -> r_store r = Some kr ->
+  (s_sc s_i = false -> ks_link_key ki = None /\ ks_link_key kr = None) /\
+  (forall a b, ks_link_key ki = Some a -> ks_link_key kr = Some b -> k_value a = k_value b).
+Proof. exact tb_link_key_store_shared. Qed.
+Print Assumptions C13_link_key_store_shared.
+
+(* ---------------------------------------------------------------- CTKD over BR/EDR *)
+(* for every pair of configurations and every mask the two sessions select CTKD and the key
+   distribution phase completes on both sides (fixes/D13e.patch: a side that expects no key
+   completes instead of waiting for ever) *)
+Theorem C13_ctkd_flow_completes : forall ci cr ans sr si,
+  responder_session true cr ans (request_of ci) = Some sr ->
+  initiator_session true ci (response_of cr sr) = NegOk si ->
+  phase3 true si sr = (Completed, Completed) /\
+  (c_oob ci || c_oob cr = false -> s_method si = PM_CTKD_OVER_CLASSIC /\ s_method sr = PM_CTKD_OVER_CLASSIC).
+Proof. exact ctkd_flow_completes. Qed.
+Print Assumptions C13_ctkd_flow_completes.
+
+(* what a CTKD session stores is authenticated only when the link key is; a side whose own
+   negotiated mask has ENC_KEY does store; one whose mask lacks it reports and stores nothing -
+   Session.on_pairing raises for want of self.ltk (known finding D13f) *)
+Theorem C13_ctkd_store_authenticated : forall (V : Type) e s lk ltk cmds ks,
+  s_method s = PM_CTKD_OVER_CLASSIC ->
+  ctkd_store V e s lk ltk cmds = Some ks -> any_auth ks = true -> e_lk_auth e = true.
+Proof. exact ctkd_flow_store_authenticated. Qed.
+Print Assumptions C13_ctkd_store_authenticated.
+
+Theorem C13_ctkd_with_enc_key_stores : forall (V : Type) e s lk ltk cmds,
+  has_flag (own_kd s) KD_ENC_KEY = true -> ctkd_store V e s lk ltk cmds <> None.
+Proof. exact ctkd_with_enc_key_stores. Qed.
+Print Assumptions C13_ctkd_with_enc_key_stores.
+
+Theorem C13_ctkd_without_enc_key_refuted : forall (V : Type) e s lk ltk cmds,
+  has_flag (own_kd s) KD_ENC_KEY = false -> ctkd_store V e s lk ltk cmds = None.
+Proof. exact ctkd_without_enc_key_refuted. Qed.
+Print Assumptions C13_ctkd_without_enc_key_refuted.
+
+(* ---------------------------------------------------------------- every schedule (message level) *)
+(* Model/PairingMsg.v: the two sessions as reactive handlers over FIFO inboxes; a schedule is any
+   list of labels (deliver to the initiator / to the responder, the initiator's / the responder's
+   user answers), of any length; a disabled label is a stutter.  For every configuration of the
+   family (9 method/role shapes x all 16x16 masks; every combination of rejection, answer outside
+   the request, each user's yes/no, right / refused / wrong passkey on each side, each Confirm and
+   DHKey check altered or not; a wrong passkey differing first at each of the 20 bits) and EVERY
+   schedule: never one side completed and the other failed; whenever nothing is enabled both
+   sides have ended (no deadlock); a run that must fail never completes on either side and one
+   that need not never fails; two failures carry the same reason; fewer than FUEL = 400 effective
+   steps (no livelock). *)
+Theorem C13_every_schedule : forall c, In c family -> forall sched,
+  let s := mrun c sched in
+  d_err (m_i s) = false /\ d_err (m_r s) = false /\
+  ~ (d_out (m_i s) = 1 /\ d_out (m_r s) = 2) /\ ~ (d_out (m_i s) = 2 /\ d_out (m_r s) = 1) /\
+  (quiescent s = true -> d_out (m_i s) <> 0 /\ d_out (m_r s) <> 0) /\
+  (must_fail c = true -> d_out (m_i s) <> 1 /\ d_out (m_r s) <> 1) /\
+  (must_fail c = false -> d_out (m_i s) <> 2 /\ d_out (m_r s) <> 2) /\
+  (d_out (m_i s) = 2 -> d_out (m_r s) = 2 -> d_reason (m_i s) = d_reason (m_r s)) /\
+  (effective c minit sched < FUEL)%nat.
+Proof. exact schedules_ok. Qed.
+Print Assumptions C13_every_schedule.
+
+(* the exploration behind it is a verified reachability check, for any configuration *)
+Theorem C13_exploration_sound : forall c, explore_ok c = true ->
+  forall sched, minv c (mrun c sched) = true /\ (effective c minit sched < FUEL)%nat.
+Proof. exact explore_sound. Qed.
+Print Assumptions C13_exploration_sound.
+
+(* The value-level model ends exactly as the message-level model does (same outcome, same
+   reasons), and its message-level configuration keeps the invariant under every schedule: all
+   5x5 capabilities x SC on each side x MITM on each side x 18 environments. *)
+Theorem C13_levels_agree : forall ci cr e, In (ci, cr, e) concrete ->
+  agrees ci cr e = true /\
+  forall c, abs_of ci cr e = Some c -> forall sched, minv c (mrun c sched) = true.
+Proof. exact concrete_agrees. Qed.
+Print Assumptions C13_levels_agree.
+
+(* ---------------------------------------------------------------- the model's shape is the source's *)
+(* compute_peer_expected_distributions and distribute_keys (both roles) as parsed from the
+   current source compute the model's lists and link-key condition *)
+Theorem C13_distribution_matches_source : forall sc bredr kd, 0 <= kd < 256 ->
+  interp_expected expected_skeleton sc bredr kd = expected sc bredr kd /\
+  interp_distribute distribute_skeleton_initiator sc bredr kd = distributed sc bredr kd /\
+  interp_distribute distribute_skeleton_responder sc bredr kd = distributed sc bredr kd /\
+  interp_link distribute_skeleton_initiator sc bredr kd = model_link sc bredr kd /\
+  interp_link distribute_skeleton_responder sc bredr kd = model_link sc bredr kd.
+Proof. exact distribution_matches_source. Qed.
+Print Assumptions C13_distribution_matches_source.
+
+(* the statements of Session.on_pairing, Device.encrypt, Device.get_long_term_key and
+   Session.get_long_term_key that file or read a key are the ones the model was written from *)
+Theorem C13_filing_matches_source :
+  on_pairing_source = on_pairing_reading /\
+  encrypt_source = encrypt_reading /\
+  provider_source = provider_reading /\
+  session_provider_source = session_provider_reading.
+Proof. exact filing_matches_source. Qed.
+Print Assumptions C13_filing_matches_source.
+
 (* ---------------------------------------------------------------- the hypotheses are satisfiable *)
 Theorem C13_toolbox_satisfiable : toolbox_ok term_toolbox.
 Proof. exact term_toolbox_ok. Qed.
@@ -236,7 +353,7 @@ Print Assumptions C13_ctkd_authenticated_refuted_before_D13b.
 Example C13_nonvacuous_legacy :
   run_obs (mkConfig 3 false false true 15 15 false) (mkConfig 3 false false true 15 15 false) honest_env =
   (true,
-   (((0, 0), [[]; [2; 0]; [1; 0]; [0]; [0]; [0]], []), ((0, 0), [[]; [1; 0]; [2; 0]; [0]; [0]; [0]], [0])),
+   (((0, 0), [[]; [2; 0]; [1; 0]; [0]; [0]; []], []), ((0, 0), [[]; [1; 0]; [2; 0]; [0]; [0]; []], [0])),
    ([0; 0; 1; 0; 15; 15; 0], [0; 0; 1; 0; 15; 15; 0]), [4; 4; 1], ([2; 2], [1; 1])).
 Proof. vm_compute. reflexivity. Qed.
 
@@ -255,3 +372,13 @@ Example C13_nonvacuous_wrong_passkey :
   (true, (((1, 4), [], []), ((1, 4), [], [])),
    ([2; 1; 1; 0; 15; 15; 1], [2; 1; 1; 0; 15; 15; 0]), [], ([], [])).
 Proof. vm_compute. reflexivity. Qed.
+
+(* the family of the schedule theorem is inhabited; a must-fail and a need-not-fail member *)
+Example C13_family_nonempty : In (honest (true, PM_PASSKEY, true, false) 7 5) family.
+Proof. exact family_nonempty. Qed.
+
+Example C13_must_fail_examples :
+  must_fail (honest (true, PM_PASSKEY, true, false) 7 5) = false /\
+  must_fail (mk (true, PM_PASSKEY, true, false) true true true true EntryOk (EntryWrong 7)
+                false false false false 7 5) = true.
+Proof. vm_compute. split; reflexivity. Qed.
